@@ -48,7 +48,13 @@ func lateRecv(r *payload.SplitMix, cfg prog.Config) (all []*prog.Script, groups 
 	for i := 0; i < r.Intn(3); i++ {
 		first.Client = append(first.Client, prog.Act{Op: 's', Size: prog.SizeClasses(cfg, r) % 3000})
 	}
-	first.Client = append(first.Client, prog.Act{Op: 'h'}, prog.Act{Op: 'q'}, prog.Act{Op: 'R'})
+	if r.Intn(2) == 0 {
+		first.Client = append(first.Client, prog.Act{Op: 'h'}, prog.Act{Op: 'q'}, prog.Act{Op: 'R'})
+	} else {
+		// the late call is a second Close: the RPC is over (read to the end), the handle is closed
+		// again only when the next RPC has frames buffered in the shared writer
+		first.Client = append(first.Client, prog.Act{Op: 'h'}, prog.Act{Op: 'R'}, prog.Act{Op: 'c'}, prog.Act{Op: 'q'}, prog.Act{Op: 'c'})
+	}
 	first.Handler = []prog.Act{{Op: 'R'}}
 	var second *prog.Script
 	for {
@@ -136,6 +142,11 @@ func scenario(id string, seed uint64, family string) runner.Result {
 	var all []*prog.Script
 	latePoint := ""
 	if late {
+		if r.Intn(2) == 0 {
+			// flushing left to the application: sends stay buffered until a flush, a receive or a close
+			cfg.Client.Stream.ManualFlush, cfg.Server.Stream.ManualFlush = true, true
+			cfg.Desc = strings.Replace(cfg.Desc, "manual=false", "manual=true", 1)
+		}
 		all, groups, latePoint = lateRecv(r, cfg)
 		nrpc, ngo = len(all), len(groups)
 	}
@@ -156,6 +167,19 @@ func scenario(id string, seed uint64, family string) runner.Result {
 			s.Handler = append(append([]prog.Act{}, h...), prog.Act{Op: 'S', Size: 3 + r.Intn(5)})
 			if !prog.ValidateStrict(s) {
 				s.Handler = h // both sides would send into full buffers forever
+			}
+		}
+		// the raw receive entry point: the application keeps the slices it was given
+		if !s.Unary && r.Intn(4) == 0 {
+			for i, a := range s.Client {
+				if a.Op == 'r' {
+					s.Client[i].Op = 'v'
+				}
+			}
+			for i, a := range s.Handler {
+				if a.Op == 'r' && r.Intn(2) == 0 {
+					s.Handler[i].Op = 'v'
+				}
 			}
 		}
 		// a late first receive: it happens when whatever the other goroutines do next has settled,
@@ -295,6 +319,9 @@ func scenario(id string, seed uint64, family string) runner.Result {
 	}
 	for _, e := range []string{} {
 		_ = e
+	}
+	for _, l := range x.Logs() {
+		fails = append(fails, l.HeldChanged()...)
 	}
 	fails = append(fails, prog.WireFindings(x.Rig.Pair.A)...)
 	fails = append(fails, prog.WireFindings(x.Rig.Pair.B)...)
